@@ -371,6 +371,20 @@ func (w *World) buildOp(op *Op) *BuiltOp {
 			}
 			b.U64 = h
 			f := []string{w.strField("bh", op.Str, 66), w.strField("ph", op.Str/12, 66), w.strField("h1", op.Str/144, 66), w.strField("h2", 0, 66), w.strField("h3", 0, 66)}
+			if reg != nil && len(reg.Records) > 0 && (op.Rule%6 == 1 || op.Rule%6 == 2) && op.N%2 == 0 {
+				// a re-submission: the block hash already recorded at that height (or the last one), other fields new
+				src := reg.Records[len(reg.Records)-1]
+				for _, r := range reg.Records {
+					if r.Key == h {
+						src = r
+					}
+				}
+				f[0] = src.Fields[0]
+				if op.N%4 == 0 {
+					f = append([]string{}, src.Fields...) // the identical record once more
+				}
+				w.Class("op.record-resubmitted-with-recorded-hash")
+			}
 			b.Msg = &wrkchaintypes.MsgRecordWrkChainBlock{WrkchainId: id, Height: h, BlockHash: f[0], ParentHash: f[1], Hash1: f[2], Hash2: f[3], Hash3: f[4], Owner: named.Str(op.Upper)}
 			b.Expect = m.ExpectRecord(named.Key(), id, h)
 			b.Desc = fmt.Sprintf("wrk record id=%d height=%d by %s", id, h, named.Name)
